@@ -446,6 +446,63 @@ def write_faults(chk, tier):
                           {"kind": bad[0], "output": kind, "fault": fault.split("@")[0]}, save)
 
 
+# ------------------------------------------------------------------------- command lines
+ARG_OPTS = ["-P", "-o", "-S", "--prefix", "--outfile", "--skel", "--yyclass", "--emit", "--bufsize",
+            "--yylmax", "--extra-type", "--yydecl", "--yyterminate", "--pre-action", "--post-action",
+            "--user-init", "--backup-file"]
+ODD_CLI = [["--nosuchoption"], ["-Q"], ["--prefix="], ["--bufsize=abc"], ["--bufsize=-5"],
+           ["--yylmax=0", "--array"], ["--emit=cobol"], ["--emit="], ["-C"], ["-Cx"], ["-Cfz"], ["-CfF"],
+           ["-+", "-CF"], ["-+", "--reentrant"], ["-+", "--array"], ["-l", "--reentrant"], ["-I", "-Cf"],
+           ["-I", "-B"], ["-7", "-8"], ["--yyclass=Foo"], ["-S/nonexistent/skel"], ["--", "-v"],
+           ["-o"], ["-t", "-o", "x.c"], ["-V"], ["--version"], ["-h"], ["--help"], ["-?"],
+           ["--tables-file"], ["--header-file"], ["-T", "-T"], ["-n"], ["--noline", "--line"],
+           ["-R"], ["--bison-bridge"], ["-d", "-s", "-p", "-p", "-v", "-b", "-L", "-w"]]
+
+
+def command_lines(chk):
+    """Malformed, unusual and contradictory command lines: a diagnostic and a non-zero status,
+    or a normal run - never a crash, never a silent acceptance of a missing argument."""
+    flex = chk.flex("san")
+    d = chk.scratch.sub("cli")
+    spec = os.path.join(d, "c.l")
+    util.write(spec, "%option noyywrap\n%%\na+ ;\n.|\\n ;\n%%\n")
+    jobs = [("missing-arg", [o]) for o in ARG_OPTS] + [("missing-arg-after-file", [spec, o]) for o in
+                                                       ARG_OPTS[:6]] + [("odd", o) for o in ODD_CLI]
+
+    def one(job):
+        kind, words = job
+        sub = os.path.join(d, "j%d" % abs(hash((kind, tuple(words)))))
+        os.makedirs(sub, exist_ok=True)
+        if kind == "missing-arg-after-file":
+            cmd = [flex.bin] + words
+        elif kind == "missing-arg":
+            cmd = [flex.bin, spec] + words          # the option is the last word
+        else:
+            cmd = [flex.bin] + words + [spec]
+        with open(spec, "rb") as fin:
+            res = util.run(cmd, cwd=sub, env=flex.env(tmpdir=sub), timeout=40, cpu_s=30,
+                           stdin=fin.read(), stdout=open(os.path.join(sub, "stdout.txt"), "wb"))
+        return job, cmd, res
+    for job, cmd, res in util.pmap(one, jobs):
+        kind, words = job
+        chk.count(1)
+        chk.nontriv("cli:%s:%s" % (kind, " ".join(words)))
+        chk.feat1("command_lines")
+        err = res.err.decode("latin1")
+        v = judge(res, [], "")
+        if v and v[0] == "hang":
+            v = ("cli-hang", "no result within 30 CPU-seconds")
+        if not v and kind.startswith("missing-arg") and res.rc == 0:
+            v = ("missing-argument-accepted", "exit status 0 although %s has no argument" % words[-1])
+        if res.rc != 0:
+            chk.feat1("command_line_rejected")
+        if v:
+            def save(dst, cmd=cmd, err=err):
+                util.jdump({"cmd": cmd, "stderr": err[-3000:]}, os.path.join(dst, "info.json"))
+            chk.violation("command line %s: %s: %s" % (" ".join(cmd[1:]), v[0], v[1]),
+                          {"kind": v[0], "words": " ".join(words)}, save)
+
+
 def run(pid, tier):
     chk = common.Check(pid, tier, level="fault_enumeration")
     chk.rule = RULE
@@ -480,12 +537,14 @@ def run(pid, tier):
         if i < 5000:
             chk.nontriv("fuzz%d" % i)
     limits(chk)
+    command_lines(chk)
     write_faults(chk, tier)
     chk.sample({"corpus_files": len(files), "example_options": OPTSETS[1:6]})
     chk.require("accepted", 50)
     chk.require("rejected", 200)
     chk.require("limit_rejected", 3)
     chk.require("write_faults_injected", 10)
+    chk.require("command_line_rejected", 15)
     for m in ("msg:unrecognized rule", "msg:bad character", "msg:undefined definition"):
         chk.require(m)
     return chk
